@@ -266,6 +266,10 @@ func instrumentPkg(p listPkg, exports map[string]string, targets map[string]bool
 				name, keep = "time", "time.Sleep"
 			case `"sync"`:
 				name, keep = "sync", "sync.NewCond"
+			case `"math/rand"`:
+				name, keep = "rand", "rand.Int"
+			case `"math/rand/v2"`:
+				name, keep = "rand", "rand.Int"
 			default:
 				continue
 			}
@@ -1252,6 +1256,32 @@ func (r *rw) special(c *ast.CallExpr) ast.Expr {
 				Fun:      &ast.SelectorExpr{X: r.call("At", addr, r.site("atomic", c.Pos()), wlit), Sel: f.Sel},
 				Args:     args,
 				Ellipsis: c.Ellipsis,
+			}
+		case "math/rand", "math/rand/v2":
+			// the package-level generator is seeded by the runtime: a source of nondeterminism no
+			// replay could reproduce (a change that adds jitter to a timeout brought it in). Its
+			// common functions draw from the tape inside a simulation.
+			if sig, ok := fn.Type().(*types.Signature); ok && sig.Recv() == nil {
+				var name string
+				switch fn.Name() {
+				case "Float64", "Float32", "Int", "Int31", "Int32", "Int63", "Int64", "Uint32", "Uint64":
+					if len(c.Args) == 0 {
+						name = "Rand" + fn.Name()
+					}
+				case "Intn", "IntN", "Int31n", "Int32N", "Int63n", "Int64N", "Uint32N", "Uint64N", "UintN":
+					if len(c.Args) == 1 {
+						name = "Rand" + strings.ToUpper(fn.Name()[:1]) + strings.ToLower(fn.Name()[1:])
+					}
+				}
+				if name != "" {
+					args := []ast.Expr{}
+					for _, a := range c.Args {
+						args = append(args, r.expr(a, ctxRead))
+					}
+					args = append(args, r.site("rand", c.Pos()))
+					return r.call(name, args...)
+				}
+				r.warn(c.Pos(), "%s draws from the runtime-seeded generator: not under the tape", full)
 			}
 		case "time":
 			if full == "time.Sleep" {
